@@ -11,6 +11,9 @@ string create_script;
 void set_create_script(string s) { create_script = s; }
 string take_create_script() { string s; s = create_script; create_script = 0; return s; }
 mapping query_registry() { return registry; }
+int has_tag(string t) { return registry && !undefinedp(registry[t]); }
+mapping reserved_tags;
+string fresh_tag(string t) { if (!reserved_tags) reserved_tags = ([ ]); while (has_tag(t) || reserved_tags[t]) t += "x"; reserved_tags[t] = 1; return t; }
 object lookup(string t) { if (!registry) return 0; return registry[t]; }
 
 void create() { rec("MASTER create"); load_policy(); }
@@ -88,7 +91,14 @@ mixed valid_write(string file, object user, string func) { return answer("VW", f
 void load_policy() { string t; t = read_file("/policy"); if (t) policy = explode(t, "\n"); policy_pos = 0;
   t = read_file("/cfpolicy"); if (t) { string l, k, v; foreach (l in explode(t, "\n")) if (sscanf(l, "%s %s", k, v) == 2) set_cf(k, v); }
   t = read_file("/vspolicy"); if (t) { string l, k, v; foreach (l in explode(t, "\n")) if (sscanf(l, "%s %s", k, v) == 2) set_vs(k, v); } }
+#ifdef VALID_OBJECT_DENY
+int valid_object(object ob) { if (file_name(ob) == VALID_OBJECT_DENY) { rec("VETO " + file_name(ob)); return 0; } return 1; }
+#else
 int valid_object(object ob) { return 1; }
+#endif
+mapping regnames;
+void regname(string t, string n) { if (!regnames) regnames = ([ ]); regnames[t] = n; }
+mapping query_regnames() { return regnames ? regnames : ([ ]); }
 string *epilog(int eflag) { return ({ }); }
 void preload(string file) { }
 void log_error(string file, string msg) { rec("LOGERR " + file + " " + msg); }
